@@ -22,6 +22,8 @@ type Behaviour struct {
 	Gate string `json:"gate,omitempty"`
 	// GateTimeoutMs bounds the wait for the gate (0 = unbounded).
 	GateTimeoutMs int `json:"gate_timeout_ms,omitempty"`
+	// AfterGateMs is a further delay after the gate opened (or timed out).
+	AfterGateMs int `json:"after_gate_ms,omitempty"`
 	// Outcome: success | error | alt | crash | bad_output | undeclared | never
 	Outcome string `json:"outcome,omitempty"`
 	// OnCancel: "alt" (answer alt after CancelDelayMs) | "ignore"
@@ -126,6 +128,7 @@ func (w *World) Log(kind, key string, payload any) {
 	w.events = append(w.events, Event{Seq: w.seq, TUs: time.Since(w.start).Microseconds(), Kind: kind, Key: key, Phase: w.phase, Payload: payload})
 	first := !w.seen[name]
 	w.seen[name] = true
+	w.seen[w.phase+"/"+name] = true // phase-qualified alias for gates, e.g. "run/deploy-end:vp://x"
 	var fire []func()
 	if first {
 		fire = w.triggers[name]
